@@ -181,7 +181,7 @@ func assumedScan(blocks []*Block) []string {
 		}
 		for _, c := range b.Clauses {
 			switch c.Kind {
-			case "assume", "trusted", "free", "given":
+			case "assume", "trusted", "free", "given", "assume-ctx-set", "ctx-exempt", "handoff", "resubscribes", "hot", "assume-released", "assume-seq":
 				out = append(out, fmt.Sprintf("%s %s in %s %s (%s:%d)", c.Kind, c.Text, b.Kind, b.Name, shortFile(c.File), c.Line))
 			}
 		}
